@@ -1,7 +1,9 @@
 import DmrVerif.Driver.Loop
 import DmrVerif.Driver.Integrity
 import DmrVerif.Driver.TranslPduSmall
+import DmrVerif.Driver.TranslHytera
 
-/-! model driver for property C04 (`t.ps.*`: the small bit-field PDUs translated from the source, `Gen/TranslPduSmall.lean`) -/
+/-! model driver for property C04 (`t.ps.*`: the small bit-field PDUs translated from the source, `Gen/TranslPduSmall.lean`;
+`t.hy.*`: the HRNP checksum translated from the source, `Gen/TranslHytera.lean`) -/
 
-def main : IO Unit := Dmr.Driver.runMain [Dmr.Driver.integrityOp, Dmr.Driver.crcOp, Dmr.Driver.translPduSmallOp]
+def main : IO Unit := Dmr.Driver.runMain [Dmr.Driver.integrityOp, Dmr.Driver.crcOp, Dmr.Driver.translPduSmallOp, Dmr.Driver.translHyteraOp]
